@@ -477,6 +477,22 @@ func init() {
 		return &Built{Msgs: []sdk.Msg{&cctypes.MsgBridgeCall{ChainName: t.A.Str("chain"), Sender: w.KeyByName(t.S).Bech(), Refund: t.A.Str("refund"), Coins: coins,
 			To: t.A.Str("to"), Data: t.A.Str("data"), Value: sdkmath.ZeroInt(), Memo: t.A.Str("memo")}}}, nil
 	})
+	// the same request through the cross-chain precompile: FX travels as msg.value
+	RegisterTx("bridge_call_evm", func(w *World, t *Tx) (*Built, error) {
+		refund, err := sdk.AccAddressFromBech32(t.A.Str("refund"))
+		if err != nil {
+			return nil, err
+		}
+		data, _ := hex.DecodeString(t.A.Str("data"))
+		memo, _ := hex.DecodeString(t.A.Str("memo"))
+		toAddr := common.HexToAddress(t.A.Str("to"))
+		in, err := cctypes.GetABI().Pack("bridgeCall", t.A.Str("chain"), common.BytesToAddress(refund.Bytes()), []common.Address{}, []*big.Int{}, toAddr, data, big.NewInt(0), memo)
+		if err != nil {
+			return nil, err
+		}
+		to := cctypes.GetAddress()
+		return &Built{Eth: true, To: &to, Value: t.A.Big("value"), Data: in}, nil
+	})
 	RegisterTx("execute_claim", func(w *World, t *Tx) (*Built, error) {
 		data, err := cctypes.GetABI().Pack("executeClaim", t.A.Str("chain"), new(big.Int).SetUint64(t.A.U64("n")))
 		if err != nil {
